@@ -983,20 +983,30 @@ class AlternativeMapping(HasGeneric[T], abc.ABC):
         raise NotImplementedError
 
 
-@lru_cache(maxsize=None)
+_dao_classes: Dict[Type, Type[DataAccessObject]] = {}
+_alternative_mappings: Dict[Type, Type[AlternativeMapping]] = {}
+"""
+The answers found so far. "Not found" is not remembered: the DAO layer may be imported later.
+"""
+
+
 def get_dao_class(cls: Type) -> Optional[Type[DataAccessObject]]:
-    if get_alternative_mapping(cls) is not None:
-        cls = get_alternative_mapping(cls)
+    if cls in _dao_classes:
+        return _dao_classes[cls]
+    original_class = get_alternative_mapping(cls) or cls
     for dao in recursive_subclasses(DataAccessObject):
-        if dao.original_class() == cls:
+        if dao.original_class() == original_class:
+            _dao_classes[cls] = dao
             return dao
     return None
 
 
-@lru_cache(maxsize=None)
 def get_alternative_mapping(cls: Type) -> Optional[Type[DataAccessObject]]:
+    if cls in _alternative_mappings:
+        return _alternative_mappings[cls]
     for alt_mapping in recursive_subclasses(AlternativeMapping):
         if alt_mapping.original_class() == cls:
+            _alternative_mappings[cls] = alt_mapping
             return alt_mapping
     return None
 
